@@ -20,6 +20,8 @@ def run(prog, tier):
     CR.group_reader_rule(prog, res, 'record/group-read')
     CR.header_writer_rule(prog, res, 'carry-through/header-write', int_scale_ok=True)
     CR.header_reader_rule(prog, res, 'carry-through/header-read', int_scale_ok=True)
+    CR.frame_writer_rule(prog, res, 'carry-through/frame-write')
+    CR.frame_reader_rule(prog, res, 'carry-through/frame-read')
     CR.copy_completeness_rule(prog, res)
     # strings are stored trimmed: the trimmer must empty a cell made only of padding
     import p_c11
